@@ -9,6 +9,7 @@ import (
 	"crypto/sha256"
 	"encoding/binary"
 	"errors"
+	"flag"
 	"fmt"
 	"io"
 	"net/url"
@@ -25,6 +26,12 @@ import (
 )
 
 func init() {
+	// the fetcher reports every failed request with klog.Errorf: keep all of it off stderr
+	fs := flag.NewFlagSet("klog", flag.ContinueOnError)
+	klog.InitFlags(fs)
+	_ = fs.Set("logtostderr", "false")
+	_ = fs.Set("alsologtostderr", "false")
+	_ = fs.Set("stderrthreshold", "FATAL")
 	klog.LogToStderr(false)
 	klog.SetOutput(io.Discard)
 }
